@@ -15,7 +15,10 @@ DiffSeqs == { <<>> } \cup { <<a>> : a \in Cands } \cup { <<p[1], p[2]>> : p \in 
 VARIABLE docs
 vars == <<uvars, docs>>
 
+\* a third document announces at most one edit, near the end of the file
+LastDocs == { <<>> } \cup { <<a>> : a \in { c \in Cands : c.pos >= 5 } }
 Init == /\ docs \in { <<d>> : d \in DiffSeqs } \cup (IF MaxDocs >= 2 THEN { <<d, e>> : d \in DiffSeqs, e \in DiffSeqs } ELSE {})
+                  \cup (IF MaxDocs >= 3 THEN { <<d, e, g>> : d \in DiffSeqs, e \in DiffSeqs, g \in LastDocs } ELSE {})
         /\ disk = [f \in {"f"} |-> Original]
         /\ payloads = [k \in 1..Len(docs) |-> [path |-> "f", old |-> Original, diffs |-> docs[k]]]
         /\ committed = 0 /\ accepted = <<>>
